@@ -83,6 +83,7 @@ class TO_NULL:
     returns = {"conforms": "result is None"}
     returns_by_case = {"str": {"only_when_cast_allowed": "not self.no_explicit_cast"},
                        "int": {"never": "False"}, "object": {"never": "False"}}
+    raises_only_cases = ("int", "object")      # these inputs never convert to None: the cases must end in TypeError
     only_raises = ["TypeError"]
     frame = ["data", "self"]
     tags = {"conforms": ["C01"], "only_when_cast_allowed": ["C12"], "never": ["C12"]}
